@@ -32,9 +32,20 @@ def function_events(ctx):
         if n == 3 and ctx.quick:
             allc = ctx.rng.sample(allc, 1500)
         combos += allc
-    for c in combos:
+    for cn, c in enumerate(combos):
         sv = SignatureVerification()
-        for j, bits in enumerate(c):
+        if len(c) >= 2 and cn % 2 == 1:
+            # the same entries arriving through the combination of two result objects (`a &= b`, as PGPKey.verify builds its answer),
+            # each of which has been evaluated before
+            parts = [SignatureVerification(), SignatureVerification()]
+            for j, bits in enumerate(c):
+                parts[0 if j == 0 else 1].add_sigsubj('sig%d' % j, 'key', 'subj%d' % j, SecurityIssues(bits))
+            bool(parts[0]), bool(parts[1]), list(parts[0].good_signatures), list(parts[1].bad_signatures)
+            sv &= parts[0]
+            bool(sv)
+            sv &= parts[1]
+        else:
+          for j, bits in enumerate(c):
             sv.add_sigsubj('sig%d' % j, 'key', 'subj%d' % j, SecurityIssues(bits))
         good = [int(s.signature[3:]) + 1 for s in sv.good_signatures]
         bad = [int(s.signature[3:]) + 1 for s in sv.bad_signatures]
